@@ -223,7 +223,15 @@ where
                     // TODO: require source to be a BufRead
                     // let read = fill_buffer_bytes(source, buffer, Self::buffer_size())?;
                     buffer.resize(Self::buffer_size(), 0);
-                    let read = fill_buffer(source, buffer, None)?;
+                    let read = match fill_buffer(source, buffer, None) {
+                        Ok(read) => read,
+                        Err(err) => {
+                            // the buffer holds plaintext that is neither hashed nor encrypted:
+                            // never hand it out, and stay failed
+                            *self = Self::Unknown;
+                            return Err(err);
+                        }
+                    };
                     if read < buffer.len() {
                         // done reading
                         // shorten buffer accordingly
@@ -255,7 +263,7 @@ where
                 return Ok(());
             }
             Self::Unknown => {
-                panic!("encryption panicked");
+                return Err(std::io::Error::other("StreamEncryptor errored"));
             }
         };
 
@@ -316,7 +324,7 @@ where
             }
             Self::Done => {}
             Self::Unknown => {
-                panic!("encryption panicked");
+                return Err(std::io::Error::other("StreamEncryptor errored"));
             }
         }
         Ok(())
